@@ -723,6 +723,9 @@ impl CallTrait for Call<'_> {
         if self.continues && (!self.wants_more()) {
             return Err(context!(ErrorKind::CallContinuesMismatch));
         }
+        if self.is_oneway() {
+            return Ok(());
+        }
         if self.continues {
             reply.continues = Some(true);
         }
@@ -803,6 +806,9 @@ impl<'a> Call<'a> {
     }
 
     fn reply_parameters(&mut self, parameters: Value) -> Result<()> {
+        if self.is_oneway() {
+            return Ok(());
+        }
         let reply = Reply::parameters(Some(parameters));
         //serde_json::to_writer(&mut *self.writer, &reply)?;
         let b = serde_json::to_string(&reply).map_err(map_context!())? + "\0";
